@@ -460,7 +460,103 @@ def check_api(ctx, case):
         ctx.disc('api.reparse.raises', 'library cannot parse its own transaction: %r' % e, case)
 
 
-DISPATCH = {'tx': check_tx, 'block': check_block, 'api': check_api}
+def _der_like(r, s, hash_type):
+    """Strict DER signature of (r, s) followed by the hash type byte, as hex."""
+    def enc(v):
+        b = v.to_bytes((v.bit_length() + 8) // 8 or 1, 'big')
+        return b'\x02' + bytes([len(b)]) + b
+    body = enc(r) + enc(s)
+    return (b'\x30' + bytes([len(body)]) + body + bytes([hash_type])).hex()
+
+
+_APIWIT_PUBS = None
+
+
+def _apiwit_pubs():
+    global _APIWIT_PUBS
+    if _APIWIT_PUBS is None:
+        from ref import ec
+        _APIWIT_PUBS = [ec.ser_compressed(ec.pubkey(d)) for d in (1, 2, 3, 7, 0xdeadbeef)]
+    return _APIWIT_PUBS
+
+
+def _apiwit_stack(spec):
+    """Witness stack (list of byte strings, b'' = empty item) of one input described by spec."""
+    from ref import wire
+    pubs = _apiwit_pubs()
+    sigs = [bytes.fromhex(x) for x in spec['sigs']]
+    kind = spec['shape']
+    if kind == 'p2wpkh':
+        return [sigs[0], pubs[spec['k'] % len(pubs)]]
+    if kind == 'multisig':
+        n = 2 + spec['k'] % 2
+        script = bytes([0x50 + len(sigs)]) + b''.join(wire.push_data(pubs[(spec['k'] + j) % len(pubs)])
+                                                      for j in range(n)) + bytes([0x50 + n, 0xae])
+        if len(sigs) > n:
+            sigs = sigs[:n]
+            script = bytes([0x50 + n]) + script[1:]
+        return [b''] + sigs + [script]
+    if kind == 'branch':
+        script = (b'\x63' + wire.push_data(pubs[spec['k'] % len(pubs)]) + b'\xac\x67' +
+                  wire.push_data(pubs[(spec['k'] + 1) % len(pubs)]) + b'\xac\x68')
+        return [sigs[0], b'' if spec['k'] % 2 else b'\x01', script]
+    if kind == 'empties':
+        return [b''] * (1 + spec['k'] % 3)
+    raise HarnessError('unknown witness shape %r' % kind)
+
+
+def check_apiwit(ctx, case):
+    """Inputs handed to the API with ready-made witness stacks (as a list of items or as the single serialised byte
+    string found in a raw transaction - both documented forms of the `witnesses` argument; the second is what the
+    wallet and the service cache use when they rebuild a stored transaction): the bytes the library serialises are
+    read back by the independent parser to the fields that were given."""
+    from ref import wire
+    from bitcoinlib.transactions import Transaction
+    stacks = [_apiwit_stack(i) for i in case['inputs']]
+    try:
+        t = Transaction(version=case['version'], locktime=case['locktime'], network='bitcoin', witness_type='segwit')
+        for i, stack in zip(case['inputs'], stacks):
+            if i['form'] == 'bytes':
+                w = wire.compact_size(len(stack)) + b''.join(wire.compact_size(len(x)) + x for x in stack)
+            else:
+                w = [x if x else b'\0' for x in stack]      # the library's in-memory convention for an empty item
+            t.add_input(i['prev'], i['n'], sequence=i['seq'], witnesses=w, witness_type='segwit')
+        for o in case['outputs']:
+            t.add_output(o['value'], lock_script=bytes.fromhex(o['spk']))
+        raw = t.raw()
+    except Exception as e:
+        ctx.refusal('apiwit.%s' % type(e).__name__)
+        return
+    try:
+        r = wire.Tx.parse(raw)
+    except Exception as e:
+        raise Discrepancy('apiwit.unparseable', 'raw() of API-built transaction not parseable: %r %s' %
+                          (e, raw.hex()[:300]), case)
+    probs = []
+    # add_input documents: version 1 becomes 2 when an input carries a relative lock-time sequence
+    want_version = 2 if any(0 < i['seq'] < 0x80000000 for i in case['inputs']) else case['version']
+    if r.version != want_version or r.locktime != case['locktime']:
+        probs.append('version/locktime %d/%d' % (r.version, r.locktime))
+    if len(r.vin) != len(case['inputs']) or len(r.vout) != len(case['outputs']):
+        probs.append('counts')
+    else:
+        for k, (a, i, stack) in enumerate(zip(r.vin, case['inputs'], stacks)):
+            if a.prev_hash[::-1].hex() != i['prev'] or a.prev_n != i['n'] or a.sequence != i['seq']:
+                probs.append('input %d outpoint/sequence' % k)
+            if a.script_sig != b'':
+                probs.append('input %d: scriptSig %s on a native witness input' % (k, a.script_sig.hex()[:40]))
+            if list(a.witness) != stack:
+                probs.append('input %d (%s form, %s): witness stack given as %s, serialised as %s' % (
+                    k, i['form'], i['shape'], [x.hex()[:12] + '(%d)' % len(x) for x in stack],
+                    [x.hex()[:12] + '(%d)' % len(x) for x in a.witness]))
+        for k, (a, o) in enumerate(zip(r.vout, case['outputs'])):
+            if a.value != o['value'] or a.script.hex() != o['spk']:
+                probs.append('output %d' % k)
+    if probs:
+        ctx.disc('apiwit.fields', '; '.join(probs[:4]), case)
+
+
+DISPATCH = {'tx': check_tx, 'block': check_block, 'api': check_api, 'apiwit': check_apiwit}
 
 
 def probes(ctx):
@@ -586,3 +682,31 @@ def run(ctx):
     ctx.run_given('api', st.fixed_dictionaries({'kind': st.just('api'), 'signed': st.booleans(),
                                                 'plan': txplan.plans(max_inputs=3)}),
                   prop_api, ctx.scale(60, 1500))
+
+    # ready-made witness stacks handed to the API (list form / single serialised byte string)
+    def _sig_hex():
+        return st.tuples(st.integers(1, 2 ** 255), st.integers(1, 2 ** 255),
+                         st.sampled_from([1, 1, 2, 3, 0x81, 0x83])).map(
+            lambda t_: _der_like(t_[0], t_[1], t_[2]))
+    apiwit_in = st.fixed_dictionaries({
+        'prev': st.binary(min_size=32, max_size=32).map(lambda b: b.hex()), 'n': st.integers(0, 5),
+        'seq': st.sampled_from([0xffffffff, 0xfffffffe, 0xfffffffd, 0, 1, 144]),
+        'shape': st.sampled_from(['p2wpkh', 'multisig', 'multisig', 'branch', 'empties']),
+        'form': st.sampled_from(['bytes', 'bytes', 'list']), 'k': st.integers(0, 11),
+        'sigs': st.lists(_sig_hex(), min_size=1, max_size=3)})
+    apiwit = st.fixed_dictionaries({
+        'kind': st.just('apiwit'), 'version': st.sampled_from([1, 2]),
+        'locktime': st.sampled_from([0, 0, 1, 499999999, 500000000, 0xffffffff]),
+        'inputs': st.lists(apiwit_in, min_size=1, max_size=3),
+        'outputs': st.lists(st.fixed_dictionaries({
+            'value': st.integers(0, 21 * 10 ** 14),
+            'spk': st.sampled_from(['0014' + 'cd' * 20, '0020' + 'ab' * 32, '76a914' + '11' * 20 + '88ac',
+                                    'a914' + '22' * 20 + '87'])}), min_size=1, max_size=3)})
+
+    def prop_apiwit(case):
+        for i in case['inputs']:
+            ctx.klass('apiwit.%s.%s' % (i['form'], i['shape']))
+        if any(i['shape'] != 'p2wpkh' for i in case['inputs']):
+            ctx.nt(('apiwit', case['inputs'], case['version'], case['locktime']))
+        check_apiwit(ctx, case)
+    ctx.run_given('apiwit', apiwit, prop_apiwit, ctx.scale(40, 1500))
